@@ -125,6 +125,7 @@ func (n *ProbeNet) Pending() []*Probe {
 }
 
 func (n *ProbeNet) Release(p *Probe, fail string, payload []byte) {
+	sched.Sleep(0) // each probe completes at its own fake instant
 	n.mu.Lock()
 	for i, x := range n.parked {
 		if x == p {
@@ -255,7 +256,7 @@ func (w *World) Close() {
 		for _, p := range w.Net.Pending() {
 			w.Net.Release(p, "connect", nil)
 		}
-		time.Sleep(12 * time.Second) // retry sleeps and scrape time-outs on the fake clock
+		sched.Sleep(12 * time.Second) // retry sleeps and scrape time-outs on the fake clock
 		synctest.Wait()
 	}
 }
